@@ -190,6 +190,12 @@ class TcpConnection(
         # (If this does become a bottleneck, say self._spool = SomeRope(b"")
         # and barely change anything else).
 
+        if self._ctx._tokenmanager is None:
+            # The transport has been shut down; the connection was released
+            # and merely waits for the peer to close it. Nothing the peer
+            # still sends is acted on or answered (not even a Ping).
+            return
+
         self._spool += data
 
         while True:
